@@ -138,6 +138,11 @@ func c14D(p c14Params) (out explore.SchedOutcome) {
 	if adm.Reply(delID) == nil {
 		out.Violations = append(out.Violations, explore.SchedV{Signature: "C14/D/correlation/missing-reply/delete-user", Detail: ""})
 	}
+	// the account is gone: either the login was refused, or the session is ended like every session of a deleted account
+	vrt.Settle(10 * time.Second)
+	if !c.Conn.Closed && w.Srv.AccountManager.Get("vic") == nil {
+		out.Violations = append(out.Violations, explore.SchedV{Signature: "C14/D/session-of-a-deleted-account-stays-connected", Detail: "the account was deleted while its client was logging in; the login was accepted and the session is still connected 20 s later, with the privileges of an account that does not exist"})
+	}
 	for _, pn := range vrt.S.Panics() {
 		out.Violations = append(out.Violations, explore.SchedV{Signature: "C14/D/panic/" + vrt.PanicSite(pn), Detail: pn})
 	}
